@@ -129,8 +129,8 @@ Definition with_warn (v : view) (w : bool) : view :=
      v_aliases := v_aliases v; v_graph := v_graph v; v_docs := v_docs v |}.
 
 (* what a run leaves behind besides the log *)
-Definition output_of (r : res outcome) : res (api * list (list str)) :=
-  match r with Ok o => Ok (o_api o, o_flat o) | Err e => Err e end.
+Definition output_of (r : res outcome) : res (api * flat) :=
+  match r with Ok o => Ok (o_api o, o_flatd o) | Err e => Err e end.
 
 Theorem front_warn_pure v w1 w2 : output_of (front (with_warn v w1)) = output_of (front (with_warn v w2)).
 Proof.
@@ -269,15 +269,15 @@ Section Stack.
       (constructor; [cbn; auto|apply hdrs_refl]).
   Qed.
 
-  Definition assign_step (acc : res (list frame * list str * list str)) (it : aitem) : res (list frame * list str * list str) :=
+  Definition assign_step (acc : res (list frame * list (str * attr) * list (str * str))) (it : aitem) : res (list frame * list (str * attr) * list (str * str)) :=
     do cur <- acc;
     let '(stack, attrs, insts) := cur in
     match it, stack with
-    | AIAttr a, FFunc f :: FClass c :: r2 => Ok (FFunc f :: FClass (cls_add_attr c a) :: r2, key_add (a_id a) attrs, insts)
+    | AIAttr a, FFunc f :: FClass c :: r2 => Ok (FFunc f :: FClass (cls_add_attr c a) :: r2, dict_set (a_id a) a attrs, insts)
     | AIAttr a, FFunc f :: _ => Err TypeError
-    | AIAttr a, FClass c :: r2 => Ok (FClass (cls_add_attr c a) :: r2, key_add (a_id a) attrs, insts)
+    | AIAttr a, FClass c :: r2 => Ok (FClass (cls_add_attr c a) :: r2, dict_set (a_id a) a attrs, insts)
     | AIAttr a, _ => Ok cur
-    | AIEnumInst id n, FEnum e :: r2 => Ok (FEnum (enum_add_instance e id n) :: r2, attrs, key_add id insts)
+    | AIEnumInst id n, FEnum e :: r2 => Ok (FEnum (enum_add_instance e id n) :: r2, attrs, dict_set id n insts)
     | AIEnumInst _ _, _ => Ok cur
     end.
 
@@ -1017,7 +1017,7 @@ Section Local.
     destruct rest as [|parent r']; [reflexivity|].
     pose proof (assign_fold_stack items (parent :: r') [] [] (vs_attrs st) (vs_enum_insts st)) as FS.
     destruct parent as [m|c|f|e|i]; try reflexivity;
-      (change (fun (acc : res (list frame * list str * list str)) (it : aitem) => _) with assign_step;
+      (change (fun (acc : res (list frame * list (str * attr) * list (str * str))) (it : aitem) => _) with assign_step;
        destruct (fold_left assign_step items (Ok (_, [], []))) as [[[s1 a1] i1]|e1],
                 (fold_left assign_step items (Ok (_, vs_attrs st, vs_enum_insts st))) as [[[s2 a2] i2]|e2];
        cbn in FS; try contradiction; cbn [bind rcore1 vs_stack vs_rmap vs_modfull vs_modname]; [subst s2; reflexivity|congruence]).
@@ -1291,3 +1291,72 @@ Section ClassInventory.
     split; [congruence|]. split; [congruence|]. rewrite GI. repeat split; assumption.
   Qed.
 End ClassInventory.
+
+(* ======================================================================================================== *)
+(* a generic invariant principle for the walk, and C12: every dictionary of the API object is keyed by the id of  *)
+(* its values, without duplicate keys - so every top-level list of the JSON file is sorted by id and duplicate free *)
+(* ======================================================================================================== *)
+Section Invariant.
+  Variables (al : aliases) (d : docs) (pref_doc warn : bool).
+  Variable P : vstate -> Prop.
+  Hypothesis P_enter_func : forall st f st' w, enter_func al d pref_doc warn st f = Ok (st', w) -> P st -> P st'.
+  Hypothesis P_leave_func : forall st st', leave_func st = Ok st' -> P st -> P st'.
+  Hypothesis P_enter_class : forall st c st' w, enter_class al d st c = Ok (st', w) -> P st -> P st'.
+  Hypothesis P_leave_class : forall st st', leave_class st = Ok st' -> P st -> P st'.
+  Hypothesis P_enter_enum : forall st c st', enter_enum d st c = Ok st' -> P st -> P st'.
+  Hypothesis P_leave_enum : forall st st', leave_enum st = Ok st' -> P st -> P st'.
+  Hypothesis P_enter_assign : forall st l u st' w, enter_assign al d st l u = Ok (st', w) -> P st -> P st'.
+  Hypothesis P_leave_assign : forall st st', leave_assign st = Ok st' -> P st -> P st'.
+
+  Lemma walk_func_inv st f st' w : walk_func al d pref_doc warn st f = Ok (st', w) -> P st -> P st'.
+  Proof.
+    unfold walk_func. intros H HP. inv_ok. split_pairs.
+    match goal with E : enter_func _ _ _ _ _ _ = Ok (?a, _), E1 : leave_func ?b = Ok _, E0 : _ = Ok (?b, _) |- _ =>
+      rename a into s1; rename b into s2; rename E into EE; rename E1 into EL; rename E0 into EF end.
+    eapply P_leave_func; [exact EL|]. apply P_enter_func in EE; [|exact HP]. clear EL HP.
+    destruct (str_eqb (fn_name f) (K"__init__")); [|inv_ok; exact EE].
+    match goal with EF : fold_left _ _ (Ok (s1, ?w)) = _ |- _ => generalize dependent w end. revert s1 EE.
+    induction (fn_body f) as [|b r IH]; intros s1 HP1 w1 EF; cbn [fold_left] in EF; [inv_ok; exact HP1|].
+    cbn [bind] in EF. destruct b; try (eapply IH; eassumption).
+    cbn [fst snd] in EF.
+    destruct (enter_assign al d s1 lvs ut) as [[sa wa]|] eqn:EA; cbn [bind fst snd] in EF.
+    - destruct (leave_assign sa) as [sb|] eqn:EB; cbn [bind] in EF.
+      + eapply IH; [|exact EF]. eapply P_leave_assign; [exact EB|]. eapply P_enter_assign; eassumption.
+      + exfalso. clear -EF. induction r as [|x r IHr]; cbn in EF; [discriminate|auto].
+    - exfalso. clear -EF. induction r as [|x r IHr]; cbn in EF; [discriminate|auto].
+  Qed.
+
+  Lemma walk_member_inv : forall m st st' w, walk_member al d pref_doc warn st m = Ok (st', w) -> P st -> P st'.
+  Proof.
+    induction m as [l u|f|f|n p i t|c n|n fu b r defs IH] using cmember_ind'; intros st st' w H HP; cbn [walk_member] in H.
+    - inv_ok. split_pairs. eapply P_leave_assign; [eassumption|]. eapply P_enter_assign; eassumption.
+    - eapply walk_func_inv; eassumption.
+    - eapply walk_func_inv; eassumption.
+    - destruct i; [destruct p; [destruct t|]| |]; try (inv_ok; exact HP); eapply walk_func_inv; eassumption.
+    - inv_ok. exact HP.
+    - inv_ok. split_pairs. cbn [cd_defs] in *.
+      match goal with E0 : _ (?a, ?wa) defs = Ok (?b, _) |- _ => rename a into s1; rename b into s2; rename wa into w1; rename E0 into EG end.
+      assert (P1 : P s1).
+      { destruct (is_enum_def _); [inv_ok; eapply P_enter_enum; eassumption|eapply P_enter_class; eassumption]. }
+      assert (P2 : P s2).
+      { clear -EG IH P1. revert s1 w1 EG P1. induction IH as [|x xs Hx _ IHxs]; intros s1 w1 EG P1; [inv_ok; exact P1|].
+        destruct (class_child x && negb (is_placeholder x)); [|eapply IHxs; eauto].
+        cbn [fst snd] in EG. destruct (walk_member al d pref_doc warn s1 x) as [[sx wx]|] eqn:EX; cbn [bind fst snd] in EG; [|discriminate].
+        eapply IHxs; [exact EG|]. eapply Hx; eassumption. }
+      destruct (is_enum_def _); [eapply P_leave_enum|eapply P_leave_class]; eassumption.
+  Qed.
+
+  Hypothesis P_enter_module : forall st m, P st -> P (enter_module st m).
+  Hypothesis P_leave_module : forall st st', leave_module st = Ok st' -> P st -> P st'.
+
+  Lemma walk_module_inv st m st' w : walk_module al d pref_doc warn st m = Ok (st', w) -> P st -> P st'.
+  Proof.
+    unfold walk_module. intros H HP. inv_ok. split_pairs.
+    match goal with E : fold_left _ _ _ = Ok (?b, _), E0' : leave_module ?b = Ok _ |- _ => rename b into s2; rename E into EF; rename E0' into EL end.
+    eapply P_leave_module; [exact EL|]. pose proof (P_enter_module st m HP) as HP1. clear EL HP.
+    revert EF HP1. generalize (enter_module st m) w0. induction (mf_defs m) as [|x r IH]; intros s1 w1 EF HP1; cbn [fold_left] in EF; [inv_ok; exact HP1|].
+    cbn [bind fst snd] in EF. destruct (module_child x && negb (is_placeholder x)); [|eapply IH; eassumption].
+    destruct (walk_member al d pref_doc warn s1 x) as [[sx wx]|] eqn:EX; cbn [bind fst snd] in EF; [|rewrite fold_err_module in EF; discriminate].
+    eapply IH; [exact EF|]. eapply walk_member_inv; eassumption.
+  Qed.
+End Invariant.
